@@ -513,6 +513,9 @@ class Tr6(Tr):
                 fld = t.fields[(tg.value.id, ast.unparse(tg.slice))]
                 return self.let(pad, tg.value.id, f"{{ {tg.value.id} with {fld} := none }}", nxt())
             raise Unsupported("del target")
+        if isinstance(s, ast.If) and isinstance(s.test, ast.UnaryOp) and isinstance(s.test.op, ast.Not) and s.orelse:
+            # normal form: `if not c: A else: B`  ==>  `if c: B else: A`
+            s = ast.copy_location(ast.If(test=s.test.operand, body=s.orelse, orelse=s.body), s)
         if isinstance(s, ast.If):
             test = self.e(s.test)
             body_k = (lambda i: self.blk(rest, i, k))
@@ -772,7 +775,7 @@ GEOM_Q = {
 }
 
 
-def targets():
+def _all_targets():
     ts = []
     # ------------------------------------------------------------------ LaneletNetwork: index maintenance
     ts.append(net_target(
@@ -955,9 +958,16 @@ def targets():
     return ts
 
 
-def nested_call_fix(t: T6):
-    """A nested helper reads `self` of the enclosing method: pass it explicitly."""
-    return t
+# translated already, tie theorem not proved yet: not emitted (an untied definition proves nothing, and could only break the build)
+PENDING = {"LaneletNetwork_find_lanelet_by_position"}
+
+
+def targets():
+    return [t for t in _all_targets() if t.name not in PENDING]
+
+
+def pending_targets():
+    return [t for t in _all_targets() if t.name in PENDING]
 
 
 def translate_target(repo, t: T6) -> str:
